@@ -424,7 +424,7 @@ def bad_texts(rng, u):
 # ---------------------------------------------------------------------------------------------- cases
 def gen_cases(rng, tier):
     cases = []
-    n_uni = 10 if tier == "quick" else 200
+    n_uni = 18 if tier == "quick" else 200
     for _ in range(n_uni):
         u = gen_luniverse(rng)
         uj = luniverse_to_json(u)
